@@ -903,9 +903,9 @@ ASSUME_V = [
     "fragment: a container of results is not a result (depth-1 return shapes, components passed on individually)",
 ]
 
-reg("C01", ["Props.C01_core", "Props.C01_flat_partial", "VM.traceBody_good", "Props.C09_bound"], run_V, ASSUME_V)
-reg("C20", ["Props.C01_core", "Props.C01_flat_partial"], run_V, ASSUME_V)
-reg("C10", ["Props.C01_core", "Props.C01_flat_partial"], run_V, ASSUME_V)
+reg("C01", ["Props.C01_core", "Props.C01_flat_partial", "Props.C20_nested_inlining_partial", "VM.traceStmts_good", "Props.C09_bound"], run_V, ASSUME_V)
+reg("C20", ["Props.C20_nested_inlining_partial", "VM.traceStmts_good", "VM.bindParamRefs_good", "Props.C01_core"], run_V, ASSUME_V)
+reg("C10", ["Props.C01_core", "Props.C01_flat_partial", "Props.C20_nested_inlining_partial"], run_V, ASSUME_V)
 
 
 # ---------------------------------------------------------------------------------------------
